@@ -2,7 +2,8 @@
 // A-IO: a positional write that lies inside the file completes fully (FdBackend::write ignores write_at's result;
 // the mmap arm is a memcpy). Writing outside the mapping is what SharedMmap::write's debug_asserts forbid: it is a
 // *precondition* here, so every caller has to prove its block lies inside its file.
-pub struct Sys { pub files: Ghost<Map<int, Seq<u8>>> }
+// `synced`: the files whose volatile contents are on stable storage (C10): a write removes its file, a successful flush adds it
+pub struct Sys { pub files: Ghost<Map<int, Seq<u8>>>, pub synced: Ghost<Set<int>> }
 
 pub open spec fn write_at(d: Seq<u8>, off: int, data: Seq<u8>) -> Seq<u8> {
     d.subrange(0, off) + data + d.subrange(off + data.len(), d.len() as int)
@@ -15,6 +16,7 @@ pub fn sys_write(sys: &mut Sys, m: &MmapH, offset: usize, data: &[u8])
         offset + data@.len() <= old(sys).files@[m.file].len(),   // C16: inside the mapping / the preallocated file
     ensures
         final(sys).files@ == old(sys).files@.insert(m.file, write_at(old(sys).files@[m.file], offset as int, data@)),
+        final(sys).synced@ == old(sys).synced@.remove(m.file),
 { unimplemented!() }
 
 #[verifier::external_body]
@@ -29,7 +31,9 @@ pub fn sys_read(sys: &Sys, m: &MmapH, offset: usize, dest: &mut [u8])
 // SharedMmap::flush (msync / fsync): no effect on the volatile contents; may fail
 #[verifier::external_body]
 pub fn sys_flush(sys: &mut Sys, m: &MmapH) -> (r: IoResult<()>)
-    ensures final(sys).files == old(sys).files
+    ensures final(sys).files == old(sys).files,
+            r is Ok ==> final(sys).synced@ == old(sys).synced@.insert(m.file),
+            r is Err ==> final(sys).synced@ == old(sys).synced@,
 { unimplemented!() }
 
 // SharedMmap::len(): the length of the mapping / file
